@@ -45,6 +45,7 @@ OPS = [
     ['s', 3], ['s', 60], ['p', 1.5], ['p', NAN],
     ['d', 0, 1], ['d', 1, 2], ['d', 0, 100], ['t', 0, 5], ['t', 0, 6],
     ['attach', 'a.bin', b'\x00\xff\x01'], ['attach', 'b.txt', b''], ['log'], ['read'],
+    ['pl'],     # publish a mutable list: first time [0.0]; later: append to the SAME object and publish it again
 ]
 
 
@@ -95,11 +96,16 @@ def run_history(hist):
   bad = []
   reads = []
 
+  shared = []
+
   def body(state):
     test = state.test_api
     ps = state.running_phase_state
     for i, op in enumerate(hist):
-      if op[0] == 's':
+      if op[0] == 'pl':
+        shared.append(len(shared) * 1.5)
+        test.measurements.p = shared
+      elif op[0] == 's':
         test.measurements.s = op[1]
       elif op[0] == 'p':
         test.measurements.p = op[1]
@@ -180,11 +186,24 @@ def check_final(rec, json_text):
         bad.append(('phase-fields', 'phase %d rendered name/outcome %r/%r, in-memory %r/%r'
                     % (i, rp.get('name'), rp.get('outcome'), p.name, p.outcome)))
       bad.extend(compare_view(rp, FakePS(p), 'final record, phase %s' % p.name))
+  import attr  # pylint: disable=g-import-not-at-top
   for key in ('subtests', 'branches', 'checkpoints'):
     if key in r:
       for rr, mm in zip(r[key], getattr(rec, key)):
         if rr.get('name') != mm.name:
           bad.append(('%s-name' % key, 'rendered %s name %r, in-memory %r' % (key, rr.get('name'), mm.name)))
+        # every public field of the in-memory record, rendered from scratch
+        for f in attr.fields(type(mm)):
+          if f.name.startswith('_'):
+            continue
+          val = getattr(mm, f.name)
+          import enum  # pylint: disable=g-import-not-at-top
+          if not (val is None or isinstance(val, (bool, int, float, str, enum.Enum))):
+            continue      # structured fields (phase outcome, condition objects) have no scratch rendering here
+          exp = render.base(val)
+          if f.name not in rr or not render.same(render.jsonish(rr[f.name]), render.jsonish(exp)):
+            bad.append(('%s-field:%s' % (key, f.name), 'rendered %s %r has %s=%r, in-memory %r'
+                        % (key, mm.name, f.name, rr.get(f.name, '<absent>'), exp)))
   if json_text is not None:
     try:
       decoded = strict_loads(json_text)
